@@ -69,10 +69,13 @@ package silence
 
 // C12: which edits may keep the id. Equal matcher sets; an active silence keeps its start (to the second) and does not
 // end in the past; a pending one does not start in the past; an expired one is never updated.
+// equality of the two silences' matcher sets (slices.EqualFunc over proto.Equal) is an opaque predicate here
+//@ uf matchersEq(*pb.Silence, *pb.Silence) bool
 //@ func canUpdate
 //@   props C12
 //@   requires a != nil && b != nil
-//@   ensures [table] result == ( ret("slices.EqualFunc")
+//@   after call slices.EqualFunc assume res0 == matchersEq(a, b)
+//@   ensures [table] result == ( matchersEq(a, b)
 //@        && stateAt(a, now) != SilenceStateExpired
 //@        && (stateAt(a, now) == SilenceStateActive ==> tsT(a.StartsAt).Unix() == tsT(b.StartsAt).Unix() && tsT(b.EndsAt) >= now)
 //@        && (stateAt(a, now) == SilenceStatePending ==> tsT(b.StartsAt) >= now) )
@@ -126,3 +129,103 @@ package silence
 //@   loop 1 invariant count("indexSilence") == counttrue1("state).merge")
 //@   assigns s.st[*], s.mi[*], s.vi, s.vi[*], s.version, silencepb.Silence.Comment, silencepb.Silence.CreatedBy, silencepb.Silence.Comments
 //@   noeffect broadcast
+
+// setSilence: offer a locally built silence to the same last-writer-wins merge as replicated ones; index it when it
+// is new; gossip it when it changed the state. A marshalling error leaves everything untouched.
+//@ func (*Silences).setSilence
+//@   props C12 C02 C09
+//@   requires s != nil && storeInv(s) && wfSil(msil) && s.broadcast != nil && s.metrics != nil && metricsOK(s)
+//@            && s.metrics.matcherCompileIndexSilenceErrorsTotal != nil && s.logger != nil
+//@   assumes len(msil.Silence.MatcherSets) > 0 ==> msil.Silence.MatcherSets[0] != nil
+//@   ensures [err] result2 != nil ==> !result0 && !result1 && dom(s.st) == old(dom(s.st)) && vals(s.st) == old(vals(s.st)) && s.version == old(s.version) && s.vi == old(s.vi) && !called("broadcast")
+//@   ensures [changed] result2 == nil ==> result0 == old(sAccepts(s.st, msil, now)) && result1 == (result0 && !old(msil.Silence.Id in s.st))
+//@   ensures [stored] result2 == nil && result0 ==> dom(s.st) == setadd(old(dom(s.st)), old(msil.Silence.Id)) && vals(s.st) == upd(old(vals(s.st)), old(msil.Silence.Id), msil)
+//@   ensures [unchanged] result2 == nil && !result0 ==> dom(s.st) == old(dom(s.st)) && vals(s.st) == old(vals(s.st))
+//@   ensures [indexed] result1 ==> s.version == old(s.version) + 1 && len(s.vi) == old(len(s.vi)) + 1 && s.vi[len(s.vi) - 1].id == msil.Silence.Id
+//@   ensures [not-indexed] !result1 ==> s.version == old(s.version) && s.vi == old(s.vi) && dom(s.mi) == old(dom(s.mi))
+//@   ensures [gossip] called("broadcast") == (result2 == nil && result0)
+//@   ensures [identity] msil.Silence == old(msil.Silence) && msil.ExpiresAt == old(msil.ExpiresAt) && msil.Silence.Id == old(msil.Silence.Id)
+//@             && msil.Silence.UpdatedAt == old(msil.Silence.UpdatedAt) && msil.Silence.StartsAt == old(msil.Silence.StartsAt) && msil.Silence.EndsAt == old(msil.Silence.EndsAt)
+//@             && msil.Silence.MatcherSets == old(msil.Silence.MatcherSets)
+//@   ensures [inv] storeInv(s) && s.st == old(s.st) && s.mi == old(s.mi)
+//@   assigns s.st[*], s.mi[*], s.vi, s.vi[*], s.version, msil.Silence.Comment, msil.Silence.CreatedBy, msil.Silence.Comments
+//@   noeffect broadcast
+
+//@ func (*Silences).getSilence
+//@   inline
+//@ func (*Silences).toMeshSilence
+//@   inline
+//@ func cloneSilence
+//@   inline
+
+// C12: expiring. Unknown id -> ErrNotFound, nothing changes. Already expired -> nothing changes (idempotent).
+// Otherwise the stored version is replaced by a copy with the same id and matchers whose end (and, if it was
+// pending, start) is the expiry instant, so it is expired at every later instant.
+//@ func (*Silences).expire
+//@   props C12 C02
+//@   requires s != nil && storeInv(s) && s.broadcast != nil && s.metrics != nil && metricsOK(s)
+//@            && s.metrics.matcherCompileIndexSilenceErrorsTotal != nil && s.logger != nil && s.retention >= 0
+//@   assumes forall k string :: k in s.st ==> (len(s.st[k].Silence.MatcherSets) > 0 ==> s.st[k].Silence.MatcherSets[0] != nil)
+//@   ensures [notfound] !old(id in s.st) ==> result == ErrNotFound && dom(s.st) == old(dom(s.st)) && vals(s.st) == old(vals(s.st))
+//@   ensures [idempotent] let n = ret("nowUTC") in old(id in s.st) && old(stateAt(s.st[id].Silence, n)) == SilenceStateExpired
+//@             ==> result == nil && dom(s.st) == old(dom(s.st)) && vals(s.st) == old(vals(s.st)) && !called("broadcast")
+//@   ensures [others] forall k string :: k != id ==> (k in s.st) == old(k in s.st) && s.st[k] == old(s.st[k])
+//@   ensures [kept] old(id in s.st) ==> id in s.st
+//@   ensures [takes-effect] old(id in s.st) && result == nil && old(updAt(s, id)) < ret("nowUTC")
+//@             ==> tsT(s.st[id].Silence.EndsAt) <= ret("nowUTC") && tsT(s.st[id].Silence.StartsAt) <= ret("nowUTC")
+//@   ensures [history] old(id in s.st) && result == nil ==> s.st[id].Silence.Id == id && s.st[id].Silence.MatcherSets == old(s.st[id].Silence.MatcherSets)
+//@             && (let n = ret("nowUTC") in old(stateAt(s.st[id].Silence, n)) == SilenceStateActive ==> s.st[id].Silence.StartsAt == old(s.st[id].Silence.StartsAt))
+//@   ensures [inv] storeInv(s)
+//@   assigns s.st[*], s.mi[*], s.vi, s.vi[*], s.version
+//@   noeffect broadcast
+
+// validation is string/regexp level and outside the verified subset: only its frame is used
+//@ func validateSilence
+//@   trusted
+//@   assigns nothing
+//@ func (*Silences).checkSizeLimits
+//@   inline
+
+// C12 (+ C18 limits): creating / editing a silence through the API.
+//@ func (*Silences).Set
+//@   props C12 C18
+//@   requires s != nil && storeInv(s) && sil != nil && s.broadcast != nil && s.metrics != nil && metricsOK(s)
+//@            && s.metrics.matcherCompileIndexSilenceErrorsTotal != nil && s.logger != nil && s.retention >= 0 && tracer != nil && ErrNotFound != nil
+//@   requires forall k string :: k in s.st ==> s.st[k].Silence != sil
+//@   assumes forall k string :: k in s.st ==> (len(s.st[k].Silence.MatcherSets) > 0 ==> s.st[k].Silence.MatcherSets[0] != nil)
+//@   assumes len(sil.MatcherSets) > 0 ==> sil.MatcherSets[0] != nil
+//@   after call Tracer).Start assume res1 != nil
+//@   after call uuid.UUID).String assume !(res0 in s.st) && res0 != ""
+//@   ensures [unknown-id] old(sil.Id) != "" && !old(sil.Id in s.st) ==> result != nil && dom(s.st) == old(dom(s.st)) && vals(s.st) == old(vals(s.st))
+//@   ensures [rejected-before-mutation] result != nil && !called("setSilence") && !called(").expire") ==> dom(s.st) == old(dom(s.st)) && vals(s.st) == old(vals(s.st)) && s.version == old(s.version)
+//@   at call ).expire assert [limits-before-expire] called("proto.Size") || s.limits.MaxSilenceSizeBytes == nil
+//@   ensures [update-keeps-id] result == nil && called("canUpdate") && ret("canUpdate") ==> sil.Id == old(sil.Id) && dom(s.st) == old(dom(s.st))
+//@             && (forall k string :: k != sil.Id ==> s.st[k] == old(s.st[k])) && tsT(sil.UpdatedAt) == first("nowUTC")
+//@   ensures [create-fresh-id] result == nil && !(called("canUpdate") && ret("canUpdate")) ==> (let nid = sil.Id in !old(nid in s.st)) && sil.Id != ""
+//@   ensures [create-stored] result == nil && !(called("canUpdate") && ret("canUpdate")) && tsT(sil.EndsAt) + s.retention >= first("nowUTC") ==> sil.Id in s.st && s.st[sil.Id].Silence == sil
+//@   ensures [create-start-not-past] result == nil && !(called("canUpdate") && ret("canUpdate")) ==> tsT(sil.StartsAt) >= first("nowUTC") && tsT(sil.UpdatedAt) == first("nowUTC")
+//@   ensures [others-untouched] forall k string :: k != old(sil.Id) && k != sil.Id ==> (k in s.st) == old(k in s.st) && s.st[k] == old(s.st[k])
+//@   ensures [old-kept] forall k string :: old(k in s.st) ==> k in s.st
+//@   ensures [replaced-is-expired] let id0 = old(sil.Id) in let n2 = ret("nowUTC") in
+//@             result == nil && !(called("canUpdate") && ret("canUpdate")) && old(id0 in s.st) && old(stateAt(s.st[id0].Silence, n2)) != SilenceStateExpired && old(updAt(s, id0)) < n2
+//@             ==> tsT(s.st[id0].Silence.EndsAt) <= n2 && s.st[id0].Silence.Id == id0 && s.st[id0].Silence.MatcherSets == old(s.st[id0].Silence.MatcherSets)
+//@   ensures [max-silences] result == nil && called("MaxSilences") && ret("MaxSilences") > 0 && !(called("canUpdate") && ret("canUpdate")) ==> len(s.st) <= ret("MaxSilences")
+//@   ensures [inv] storeInv(s)
+//@   assigns s.st[*], s.mi[*], s.vi, s.vi[*], s.version, sil.*
+//@   noeffect broadcast RecordEvent MaxSilences MaxSilenceSizeBytes
+
+// C12: garbage collection. Only silences whose retention has passed (or whose expiry is unreadable) are removed;
+// everything that stays is untouched, so pending and active silences (expiry = end + retention > now) survive.
+//@ func (*Silences).GC
+//@   props C12 C02
+//@   requires s != nil && storeInv(s) && s.metrics != nil && metricsOK(s) && s.metrics.gcDuration != nil && s.metrics.gcErrorsTotal != nil
+//@   ensures [only-expired] let n = ret("nowUTC") in forall k string :: old(k in s.st) && !(k in s.st)
+//@             ==> old(s.st[k].ExpiresAt) == nil || tsT(old(s.st[k].ExpiresAt)) == 0 || tsT(old(s.st[k].ExpiresAt)) <= n
+//@   ensures [kept-untouched] forall k string :: k in s.st ==> old(k in s.st) && s.st[k] == old(s.st[k])
+//@   ensures [inv] storeInv(s) && s.st == old(s.st) && s.mi == old(s.mi) && s.version == old(s.version)
+//@   loop 1 invariant s.st == old(s.st) && s.mi == old(s.mi) && storeInv(s) && s.version == old(s.version)
+//@   loop 1 invariant let n = ret("nowUTC") in forall k string :: old(k in s.st) && !(k in s.st)
+//@             ==> old(s.st[k].ExpiresAt) == nil || tsT(old(s.st[k].ExpiresAt)) == 0 || tsT(old(s.st[k].ExpiresAt)) <= n
+//@   loop 1 invariant forall k string :: k in s.st ==> old(k in s.st) && s.st[k] == old(s.st[k])
+//@   loop 1 invariant s.vi == old(s.vi) && len(targetVi) <= rangeindex + 1 && rangeindex < len(s.vi)
+//@   assigns s.st[*], s.mi[*], s.vi, s.vi[*]
